@@ -627,12 +627,62 @@ pub fn targeted(rng: &mut Rng) -> (&'static str, Program, &'static str) {
             ("i", block(vec![Stmt::Expr(int(0)), sw]), "switch-string")
         }
         _ => {
-            // a `let` inside a switch clause: the case block is one scope
-            let sw = Stmt::Switch(
-                dyn_int(rng),
-                vec![(Some(int(0)), vec![let_("x", int(2)), Stmt::Expr(id("x")), Stmt::Break(false)]), (None, vec![Stmt::Expr(int(7))])],
-            );
-            ("i", block(vec![let_("x", int(1)), sw, Stmt::Expr(bin("add", id("x"), int(100)))]), "let-in-switch-clause")
+            // a `let` inside a switch clause: the statement list of a clause is a scope of its own (F40, repaired by 2a702d4:
+            // nothing declared in the switch outlives it; F100, repaired by 0aff63c: nor does it reach a later clause)
+            let sel = if rng.chance(1, 2) { dyn_int(rng) } else { bin("band", dyn_int(rng), int(3)) };
+            match rng.below(5) {
+                0 => {
+                    let sw = Stmt::Switch(
+                        sel,
+                        vec![(Some(int(0)), vec![let_("x", int(2)), Stmt::Expr(id("x")), Stmt::Break(false)]), (None, vec![Stmt::Expr(int(7))])],
+                    );
+                    ("i", block(vec![let_("x", int(1)), sw, Stmt::Expr(bin("add", id("x"), int(100)))]), "let-in-switch-clause")
+                }
+                1 => {
+                    // the clause variable shadows an outer one: after falling through, the later clause reads the OUTER one
+                    let sw = Stmt::Switch(
+                        sel,
+                        vec![
+                            (Some(int(0)), vec![let_("v", int(2)), Stmt::Expr(id("v"))]),
+                            (Some(int(1)), vec![ret(bin("add", id("v"), int(10)))]),
+                            (None, vec![Stmt::Expr(bin("add", id("v"), int(20)))]),
+                        ],
+                    );
+                    ("i", block(vec![let_("v", dyn_int(rng)), sw, Stmt::Expr(bin("add", id("v"), int(100)))]), "switch-clause-scope-shadow")
+                }
+                2 => {
+                    // assignments to an outer variable made in a clause (next to a clause-local declaration) persist
+                    let sw = Stmt::Switch(
+                        sel,
+                        vec![
+                            (Some(int(0)), vec![let_("w", bin("mul", id("v"), int(2))), Stmt::Expr(Expr::Assign(Box::new(id("v")), Box::new(bin("add", id("w"), int(1)))))]),
+                            (Some(int(1)), vec![const_("w", int(5)), Stmt::Expr(Expr::Assign(Box::new(id("v")), Box::new(bin("sub", id("v"), id("w"))))), Stmt::Break(false)]),
+                            (None, vec![]),
+                            (Some(int(2)), vec![Stmt::Expr(Expr::Assign(Box::new(id("v")), Box::new(int(0))))]),
+                        ],
+                    );
+                    ("i", block(vec![let_("v", bin("band", dyn_int(rng), int(65535))), sw, Stmt::Expr(id("v"))]), "switch-clause-scope-assign")
+                }
+                3 => {
+                    // the clause variable has the name of a property of `this`: a later clause reads the PROPERTY
+                    let sw = Stmt::Switch(
+                        sel,
+                        vec![
+                            (Some(int(0)), vec![let_("j", int(2)), Stmt::Expr(id("j"))]),
+                            (Some(int(1)), vec![ret(bin("bxor", id("j"), int(1)))]),
+                        ],
+                    );
+                    ("i", block(vec![sw, Stmt::Expr(id("j"))]), "switch-clause-scope-property")
+                }
+                _ => {
+                    // the clause variable is used by a later clause and nothing outer has that name: rejected
+                    let sw = Stmt::Switch(
+                        sel,
+                        vec![(Some(int(0)), vec![let_("w", int(2))]), (Some(int(1)), vec![ret(id("w"))]), (None, vec![Stmt::Expr(int(3))])],
+                    );
+                    ("i", block(vec![sw, Stmt::Expr(int(4))]), "switch-clause-scope-rejected")
+                }
+            }
         }
     }
 }
